@@ -116,6 +116,19 @@ def cases(tier, rng):
                    "send @b;6f6b", "wire a", "wire b"]
             out.append("b%d sock ROUTER / %s" % (k, " / ".join(ops)))
             k += 1
+    # identities that differ only in a trailing / leading zero octet are different identities
+    for pt in ("DEALER", "REQ"):
+        idents = [b"node-7", b"node-7\x00", b"\x00node-7", b"node-7\x00\x00"]
+        cs = "abcd"
+        ops = ["attach %s %s id=%s" % (c, pt, i.hex()) for c, i in zip(cs, idents)]
+        for c in cs:
+            body = [b"from-" + c.encode()] if pt == "DEALER" else [b"", b"from-" + c.encode()]
+            ops.append("feed %s %s" % (c, W.tok(W.msg(body))))
+        ops += ["recv"] * (len(cs) + 1)
+        for c, i in zip(cs, idents):
+            ops += ["send %s;746f2d%02x" % (i.hex(), ord(c))] + ["wire " + x for x in cs]
+        out.append("e%d sock ROUTER / %s" % (k, " / ".join(ops)))
+        k += 1
     # a send that is abandoned while the connection does not take bytes leaves the peer connected and routable
     for polls in (1, 2, 3):
         for size in (1, 70000):
